@@ -780,6 +780,97 @@ def judge_hoist(case):
             "classes": ["branches:" + order, "runs:%d" % len(case["flows"]), "bufsize:%s" % case["bufsize"]]}
 
 
+class EagerStore(object):
+    """a fill/compute element between the caches (Sequence runs such an element eagerly: it is filled when run() is
+    called); it passes on what it was filled with and counts its fills"""
+
+    def __init__(self, log):
+        self.log, self.vals = log, []
+
+    def fill(self, v):
+        self.log.append("fill")
+        self.vals.append(v)
+
+    def compute(self):
+        for v in self.vals:
+            yield v
+        self.vals = []
+
+
+@st.composite
+def hoist_last_case(draw):
+    return {"n": draw(st.integers(0, 5)), "ctx": draw(st.sampled_from([False, True])),
+            "filled": draw(st.sampled_from(["both", "both", "both", "first", "second"])),
+            "between": draw(st.sampled_from(["eager", "eager", "map", "eager_and_map"])),
+            "driver": draw(st.sampled_from(["alter_static", "alter_meta", "alter_nested", "split_branch"])),
+            "m": draw(st.integers(0, 4))}
+
+
+def judge_hoist_last(case):
+    """two caches with an element between them; alter_sequence must start the hoisted Source at the LAST filled cache:
+    nothing before it is run (an eager element between the caches would be filled from the first cache otherwise)"""
+    n = case["n"]
+    first = upstream_values(n, 1, case["ctx"])
+    log = []
+    pre = lambda v: (log.append("pre") or ("a", copy.deepcopy(v)))       # noqa
+    mid = lambda v: (log.append("mid") or ("m", copy.deepcopy(v)))       # noqa
+    post = lambda v: ("p", copy.deepcopy(v))                                # noqa
+
+    def between():
+        return {"eager": [EagerStore(log)], "map": [mid], "eager_and_map": [EagerStore(log), mid]}[case["between"]]
+
+    def els():
+        return [pre, Cache("cache_1.pkl")] + between() + [Cache("cache_2.pkl"), post]
+    with instr.Sandbox("lena-c18l-"):
+        src = CountingSource(copy.deepcopy(first))
+        out1 = list(Sequence(*els()).run(src()))
+        bw = (lambda v: ("m", v)) if "map" in case["between"] else (lambda v: v)
+        stored1 = [("a", v) for v in first]
+        stored2 = [bw(v) for v in stored1]
+        if out1 != [("p", v) for v in stored2]:
+            raise Violation("first-run-alters-the-flow", "%s: %s" % (case, short(out1, 300)))
+        if case["filled"] == "first":
+            os.remove("cache_2.pkl")
+        elif case["filled"] == "second":
+            os.remove("cache_1.pkl")
+        del log[:]
+        second = upstream_values(case["m"], 2, case["ctx"])
+        src2 = CountingSource(copy.deepcopy(second))
+        seq_els = els()
+        d = case["driver"]
+        if d == "split_branch":
+            # the branch of a single-block Split is altered when the Split is built
+            sp = Split([Sequence(*seq_els)], bufsize=None)
+            got = list(sp.run(src2()))
+        else:
+            if d == "alter_nested":
+                seq = Sequence(Sequence(*seq_els[:2]), Sequence(*seq_els[2:]))
+            else:
+                seq = Sequence(*seq_els)
+            new = Cache.alter_sequence(seq) if d != "alter_meta" else lena.core.alter_sequence(seq)
+            got = list(new() if isinstance(new, Source) else new.run(src2()))
+        if case["filled"] == "both":
+            exp, pulls, events = [("p", v) for v in stored2], 0, []
+        elif case["filled"] == "second":
+            exp, pulls, events = [("p", v) for v in stored2], 0, []
+        else:
+            exp, pulls = [("p", v) for v in stored2], 0
+            events = (["fill"] * n if "eager" in case["between"] else []) + (["mid"] * n if "map" in case["between"] else [])
+        if d == "split_branch" and case["m"] == 0 and got == []:
+            # (an empty flow through a Split: the branch is run on no block at all - not judged)
+            return {"nontrivial": False, "classes": ["split-empty-flow"]}
+        if got != exp:
+            raise Violation("stale-or-truncated-cache-replayed", "%s: with cache files %s present the run yields %s, expected %s" % (
+                case, case["filled"], short(got, 300), short(exp, 300)))
+        if d != "split_branch" and src2.pulls != pulls:
+            raise Violation("upstream-pulled-although-a-cache-replays", "%s: %d values pulled from the source" % (case, src2.pulls))
+        if sorted(log) != sorted(events):
+            raise Violation("element-upstream-of-a-replaying-cache-is-run",
+                            "%s: caches filled: %s; elements before the last filled cache were run: %s (expected %s)" % (
+                                case, case["filled"], short(log, 200), short(events, 200)))
+    return {"nontrivial": n > 0, "classes": ["filled:" + case["filled"], "between:" + case["between"], "driver:" + d]}
+
+
 CHECKS = [
     Check("histories", judge_history, strategy=lambda tier: history_case() if tier != "thorough" else st.one_of(history_case(), history_case(big=True)), quick=1500, thorough=50000,
           rule="pipelines pre* Cache [mid* Cache] post* x flows 0-8 (bare / fresh context / one shared context object updated in place / contexts large enough to cross file-buffer boundaries) x histories of 1-6 operations "
@@ -790,6 +881,10 @@ CHECKS = [
           rule="a filled Cache given as a bare branch of a Split (alone, before or after a per-value branch, two caches), which Split hoists into a Source through alter_sequence when it is built; "
                "the same Split run 1-3 times over flows of 0-5 values with bufsize 1,2,3,None,1000: every run yields the stored flow once (at the first block) and the other branch's results per block. "
                "Non-trivial = more than one run and a non-empty stored flow."),
+    Check("hoist_last", judge_hoist_last, strategy=lambda tier: hoist_last_case(), quick=400, thorough=6000,
+          rule="two caches with an eagerly run fill/compute element and / or a map between them, both or one of them filled by a complete first run; the sequence is then altered "
+               "(Cache.alter_sequence, lena.core.alter_sequence, nested sequences, the branch of a single-block Split) and run over another upstream: the stored flow is replayed, "
+               "no value is pulled, and no element before the LAST filled cache is run (the element between the caches is not filled when both caches are filled). Non-trivial = a non-empty stored flow."),
     Check("crash_points", judge_history, cases=crash_point_cases, exhaustive=True,
           rule="complete enumeration: 4 pipelines x flow lengths 0-5 (0-8 thorough) x first-run driver x second-run driver x bare/context/shared context x every crash point of the first run "
                "(consumer stops after k = 0..n+1 values; source or any stage raises at value k = 0..n; process killed after k values), then two complete runs."),
